@@ -354,4 +354,17 @@ theorem C02_agreement_partial_leave_would_refute :
     let r := step n (.leaveMsg "self" 7 false 0)
     ltimeOf r.1 "self" = some 0 ∧ r.1.pending = [8] := by decide
 
+/-- Second counterexample to the agreement clause (recorded finding `rejoined-stuck-leaving`, seen on a
+real 4-node cluster and reproduced on the real single node by corpus/C02/rejoined-stuck-leaving.case):
+x leaves gracefully at L = 5, restarts and rejoins (its join intent carries L + 1 = 6); the observer gets
+memberlist's NotifyJoin(x), then merges a push/pull from a peer that still lists x as left with status
+time 5: the artificial leave intent at 5 + 1 = 6 turns the running x from alive to leaving, and x's
+real join intent at 6 is ignored (6 ≤ 6) — x stays `leaving`, and the join is not even gossiped on. -/
+theorem C02_rejoined_stuck_leaving_counterexample :
+    let n := run (Node.init "a" {}) [.nodeJoin "x", .leaveMsg "x" 5 false 0, .nodeLeave "x" 0,
+      .nodeJoin "x", .merge 6 [("x", 5)] ["x"] 0, .joinMsg "x" 6 0]
+    statusOf n "x" = some .leaving ∧ ltimeOf n "x" = some 6 ∧
+      (step n (.joinMsg "x" 6 0)).2.rebroadcast = false ∧
+      statusOf (step n (.joinMsg "x" 6 0)).1 "x" = some .leaving := by decide
+
 end SerfProofs.C02
